@@ -597,6 +597,19 @@ def _emit_axioms(fname, args, k):
             c.axioms.append(z3.Implies(z3.fpIsNaN(x), z3.fpIsNaN(k)))
         if fname == "exp":
             c.axioms.append(z3.Implies(z3.Not(z3.fpIsNaN(x)), z3.And(z3.Not(z3.fpIsNaN(k)), z3.fpGEQ(k, z3.FPVal(0.0, k.sort())))))
+        if fname in ("log", "log1p"):
+            # IEEE log / log1p on the boundary of their domain (true of the libm functions torch calls)
+            srt = k.sort()
+            lo = z3.FPVal(0.0 if fname == "log" else -1.0, srt)
+            unit = z3.FPVal(1.0 if fname == "log" else 0.0, srt)
+            c.axioms.append(z3.Implies(z3.fpLT(x, lo), z3.fpIsNaN(k)))
+            c.axioms.append(z3.Implies(z3.fpEQ(x, lo), z3.And(z3.fpIsInf(k), z3.fpIsNegative(k))))
+            c.axioms.append(z3.Implies(z3.fpGT(x, lo), z3.Not(z3.fpIsNaN(k))))
+            c.axioms.append(z3.Implies(z3.And(z3.fpGT(x, lo), z3.Not(z3.fpIsInf(x))), z3.Not(z3.fpIsInf(k))))
+            c.axioms.append(z3.Implies(z3.And(z3.fpIsInf(x), z3.fpIsPositive(x)), z3.And(z3.fpIsInf(k), z3.fpIsPositive(k))))
+            c.axioms.append(z3.Implies(z3.fpEQ(x, unit), z3.fpIsZero(k)))
+            c.axioms.append(z3.Implies(z3.And(z3.fpGT(x, lo), z3.fpLT(x, unit)), z3.fpLEQ(k, z3.FPVal(0.0, srt))))
+            c.axioms.append(z3.Implies(z3.fpGT(x, unit), z3.fpGEQ(k, z3.FPVal(0.0, srt))))
         if fname == "pow":
             b, e = args
             zero = z3.FPVal(0.0, k.sort())
